@@ -90,6 +90,7 @@ type Focus struct {
 	only20     bool           // drawn per case
 	foreign    bool           // drawn per case: prices in the second token (and no base-denomination change)
 	multi      bool           // drawn per case: accounts hold a second coin as well
+	BigPricePct int           // percent of the prices of binds / updates that sit where price x multiple leaves the 64-bit range
 	MultiPct   int            // percent of the cases in which accounts hold a second coin (invariant-only properties)
 }
 
@@ -117,6 +118,7 @@ func FocusFor(prop string, tier string) Focus {
 			// "under the parameters in force": a governance change may leave existing bindings below the
 			// new minimum; the oracle tolerates exactly those while nothing touches them
 			f.ParamChangeW = 2
+			f.BigPricePct = 4
 		}
 	case "C04":
 		mul(2, KCall, KRespond)
@@ -558,7 +560,21 @@ func (g *GenState) basePriceOf(b types.ServiceBinding) int64 {
 	return g.Cfg.InBase(rp)
 }
 
+// bigPriceSometimes: prices that fit 64 bits while their product with a deposit multiple does not
+// (2^62; just above 2^64/200 and 2^64/10, where a wrapped product is a small positive number). No
+// account can cover the minimum deposit of such a price: binding or enabling at it must fail.
+func (g *GenState) bigPriceSometimes(t *rapid.T, pricing string) string {
+	if g.F.BigPricePct == 0 || g.F.multi || g.F.foreign || !pct(t, "big_price", g.F.BigPricePct) {
+		return pricing
+	}
+	return fmt.Sprintf(`{"price":"%sstake"}`, pick(t, "big_price_value", []string{"92233720368547759", "1844674407370955162", "4611686018427387904", "92233720368547758"}))
+}
+
 func (g *GenState) genDepositAround(t *rapid.T, threshold int64, have int64) *int64 {
+	if threshold > 1<<60 {
+		// nothing covers it: send an ordinary amount
+		threshold = pick(t, "deposit_for_big_price", []int64{6000, 1000, 1e6, 1e12})
+	}
 	need := threshold - have
 	opts := []int64{need, need + 1, 2*threshold + 7, need - 1, 1}
 	v := pick(t, "deposit", opts)
@@ -1252,7 +1268,7 @@ func (g *GenState) genOfKind(t *rapid.T, kind string) Action {
 		if o, ok := s.Owner[prov]; ok {
 			owner = g.signerFor(t, o)
 		}
-		pricing := illegalPricingSometimes(t, GenPricingIn(t, s.TimeNs, g.genPriceDenom(t)), s.TimeNs, g.F.IllegalPricingPct)
+		pricing := g.bigPriceSometimes(t, illegalPricingSometimes(t, GenPricingIn(t, s.TimeNs, g.genPriceDenom(t)), s.TimeNs, g.F.IllegalPricingPct))
 		base := int64(0)
 		if rp, err := ParseRefPricing(pricing); err == nil {
 			base = g.Cfg.InBase(rp)
@@ -1281,7 +1297,7 @@ func (g *GenState) genOfKind(t *rapid.T, kind string) Action {
 			a.Options = "{}"
 			newBase := g.basePriceOf(b)
 			if pct(t, "upd_pricing", 50) {
-				a.Pricing = illegalPricingSometimes(t, GenPricingIn(t, s.TimeNs, g.genPriceDenom(t)), s.TimeNs, g.F.IllegalPricingPct)
+				a.Pricing = g.bigPriceSometimes(t, illegalPricingSometimes(t, GenPricingIn(t, s.TimeNs, g.genPriceDenom(t)), s.TimeNs, g.F.IllegalPricingPct))
 				if pct(t, "upd_same_pricing", 12) {
 					a.Pricing = b.Pricing // a client re-submitting the full, unchanged specification
 				}
